@@ -179,7 +179,7 @@ package engine
 //@   ensures loops: forall i :: { result.loopStack.store[i] } 0 <= i && i < len(es.loopStack.store) ==> result.loopStack.store[i] == es.loopStack.store[i]
 //@   ensures calls: forall i :: { result.callStack.store[i] } 0 <= i && i < len(es.callStack.store) ==> result.callStack.store[i] == es.callStack.store[i]
 //@   ensures self: result.backtrack.store.ref != result.ref || result.backtrack.store.ref == 0
-//@   ensures isolated: es.environment.Value != nil ==> fresh(result.environment.Value) && domain(result.environment.Value) == domain(es.environment.Value) [C02]
+//@   ensures isolated: es.environment.Value != nil ==> fresh(result.environment.Value) && domain(result.environment.Value) == domain(es.environment.Value) [C02 C03]
 //@   ensures bindings: es.environment.Value != nil ==> forall k Str :: { select(values(result.environment.Value), k) } has(es.environment.Value, k) && (es.environment.Value[k] is ValueString) ==> result.environment.Value[k] == es.environment.Value[k] [C02]
 //@   ensures envnew: result.environment.Value != nil
 //@   ensures ok: cellOk(es) ==> cellOk(result)
